@@ -23,6 +23,20 @@ CHECKS = {
     },
 }
 
+CHECKS['C15'] = {
+    'level': 'fault_enumeration',
+    'text': ('For each seeded scenario (query shape x front-end x dialect x buffer knobs) the fault points are enumerated against the real code: the output sink breaks at '
+             'every write-call index or after every accepted-byte budget (inside write, at the final flush, at close), a user writer refuses at every write index, one invalid '
+             'UTF-8 byte is placed at every position of the input or join table under a seeded read schedule, and a catalogue of error paths (parse, syntax, runtime at record k, '
+             'IO, missing files, sqlite) is run through query_csv, query_sqlite_to_csv and the in-process CLI with a tracked open(). Checked: returns without error, emitted bytes are a '
+             'prefix of the fault-free output, stops within one pull/one write attempt, IO-handling error and never garbage or a raw UnicodeDecodeError, every opened handle closed, '
+             'writer call protocol. Scenarios are sampled; fault points within a scenario are complete (strided for long outputs).'),
+    'design_ref': 'DESIGN.md 3.4',
+    'note': ('Trusted: the fault-free run of the same code as prefix reference; CPython io stack; simulated sinks/sources. Not covered: a real OS pipe, interpreter-exit flushing, '
+             'interactive mode. "Promptly" = at most one further pull and one further write attempt after the first failed record write.'),
+    'technique': 'deterministic simulation with fault injection: enumerated sink-break / refusal / bad-byte / error points per seeded scenario, history oracles',
+}
+
 NOT_APPLICABLE = {
     'C01': 'pure function of (query text, table): no stream schedule, interleaving, history or fault in the statement, nothing for a simulator to own',
     'C03': 'aggregate values are a pure function of the group records in input order; accumulator state never meets a seam',
@@ -40,7 +54,7 @@ NOT_APPLICABLE = {
     'C19': 'JS engine vs reference semantics is a pure differential statement; its last clause (caller arrays unmodified) is observed by the C06 JS workload',
 }
 
-PENDING = {pid: 'check not built yet in this commit (simulation target, planned in DESIGN.md section 3); not claimed until its check exists' for pid in ('C02', 'C06', 'C15', 'C16', 'C20')}
+PENDING = {pid: 'check not built yet in this commit (simulation target, planned in DESIGN.md section 3); not claimed until its check exists' for pid in ('C02', 'C06', 'C16', 'C20')}
 
 
 def main():
